@@ -87,6 +87,9 @@ class Tr:
                     return ("(wrap64 %s)" % g if s != 'u' else g), 'u'
                 if t == 'i' and s == 'i':
                     return g, 'i'
+                if t == 'i' and s == 'u':
+                    # narrowing to a 32-bit int (implementation-defined before C++20, modular on every supported target)
+                    return "(wrap_i32 %s)" % g, 'i'
                 raise Unsupported("integral cast to %s at %s" % (n["type"]["qualType"], where(n)))
             raise Unsupported("cast kind %s at %s" % (ck, where(n)))
         if k == "CXXUnresolvedConstructExpr":
@@ -143,6 +146,9 @@ class Tr:
                 f = {'+': '+', '-': '-', '*': '*', '/': '/', '%': 'mod'}.get(op)
                 if not f:
                     raise Unsupported("integer operator %s at %s" % (op, where(n)))
+                if sa == 'i' and op in ('/', '%'):
+                    # signed division truncates towards zero
+                    return "(%s %s %s)" % ('Z.quot' if op == '/' else 'Z.rem', a, b), 'i'
                 e = "(%s %s %s)" % (a, f, b)
                 return ("(wrap64 %s)" % e if sa == 'u' else e), sa
             raise Unsupported("operator %s on %s at %s" % (op, sa, where(n)))
@@ -282,6 +288,7 @@ From HepMC Require Import Num.
 Local Open Scope Z_scope.
 
 Definition wrap64 (z : Z) : Z := z mod 2 ^ 64.
+Definition wrap_i32 (z : Z) : Z := (z + 2 ^ 31) mod 2 ^ 32 - 2 ^ 31.
 
 """
 
